@@ -322,14 +322,21 @@ def render_namespace(tree: ast.Module) -> str:
                 and st.value.func.attr in ("start_row", "end_row") and not st.value.args:
             lines.append(f"  TermEncoder.{st.value.func.attr}")
             continue
-        # [*rows] = term_encoder.encode_iri(value, iri=iri)   /   rows = list(...)
-        if isinstance(st, ast.Assign) and isinstance(st.value, ast.Call) and getattr(getattr(st.value.func, "value", None), "id", None) == penc \
-                and st.value.func.attr == "encode_iri" and msg is not None:
+        # [*rows] = term_encoder.encode_iri(value, iri=iri)   /   rows = list(term_encoder.encode_iri(value, iri))
+        call = st.value if isinstance(st, ast.Assign) else None
+        as_list = isinstance(call, ast.Call) and getattr(call.func, "id", None) == "list" and len(call.args) == 1 and not call.keywords
+        if as_list:
+            call = call.args[0]
+        if isinstance(st, ast.Assign) and isinstance(call, ast.Call) and getattr(getattr(call.func, "value", None), "id", None) == penc \
+                and call.func.attr == "encode_iri" and msg is not None:
             tg = st.targets[0]
-            if isinstance(tg, ast.List) and len(tg.elts) == 1 and isinstance(tg.elts[0], ast.Starred) and isinstance(tg.elts[0].value, ast.Name):
+            if not as_list and isinstance(tg, ast.List) and len(tg.elts) == 1 and isinstance(tg.elts[0], ast.Starred) and isinstance(tg.elts[0].value, ast.Name):
                 rows = tg.elts[0].value.id
+            elif as_list and isinstance(tg, ast.Name):
+                rows = tg.id
             else:
                 fail(st, "target of encode_iri")
+            st = ast.Assign(targets=st.targets, value=call)
             given = dict(zip(("iri_string", "iri"), st.value.args))
             for k in st.value.keywords:
                 given[k.arg] = k.value
